@@ -50,6 +50,10 @@ GInit ==
   /\ \A sw \in VintSwitches : \A v \in {sw - 1, sw, sw + 1} : \A kind \in {"tf", "gap"} : \A ll \in {3, BlockLen + 72} :
        \A o \in (IF kind = "gap" THEN {"pos", "nn"} ELSE {"pos", "frq", "nn"}) :
          PrintT(<<"CASE", ToJson([what |-> "vintb", kind |-> kind, value |-> v, listlen |-> ll, opt |-> o])>>)
+  \* the same path (flat or nested) with text in BOTH JSON fields of a document; several leaves under it in one
+  \* of the two; the positions of a path are counted per field
+  /\ \A nested \in BOOLEAN : \A w1 \in {1, 3} : \A w2 \in {1, 2} : \A multi \in {"none", "first", "second"} : \A other \in BOOLEAN :
+       PrintT(<<"CASE", ToJson([what |-> "json2", nested |-> nested, words1 |-> w1, words2 |-> w2, multi |-> multi, disjoint_path_too |-> other])>>)
 GNext == done' = TRUE /\ UNCHANGED ivars
 GSpec == GInit /\ [][GNext]_<<done, ivars>>
 =============================================================================
